@@ -3,6 +3,7 @@ import ForsysModel.Model.Pressure
 import ForsysModel.Proofs.LinAlg
 import ForsysModel.Proofs.C05
 import Mathlib.Logic.Relation
+import Mathlib.Data.List.Perm.Basic
 namespace Forsys
 
 /-! ### rows of the pressure matrix -/
@@ -448,5 +449,166 @@ theorem normal_eq_scale' (L : Mat) (r p : List Rat) (mu c : Rat) (n : Nat) (hn :
   · have : (vscale c p).sum = c * p.sum := by
       rw [← dot_replicate_one_left _ n (by simp [hp]), dot_smul_right, dot_replicate_one_left _ n (by omega)]
     rw [this, h2]; simp
+
+/-! ### connected interface graph -/
+
+theorem sum_of_const (p : List Rat) (c : Rat) (h : ∀ v ∈ p, v = c) : p.sum = p.length * c := by
+  induction p with
+  | nil => simp
+  | cons x p ih =>
+    have hx : x = c := h x (by simp)
+    have := ih (fun v hv => h v (by simp [hv]))
+    simp only [List.sum_cons, List.length_cons, this, hx]; push_cast; ring
+
+theorem connected_kernel' (n : Nat) (rows : List (Nat × Nat × Int)) (p : List Rat) (hp : p.length = n)
+    (hrows : ∀ r ∈ rows, r.1 < n ∧ r.2.1 < n ∧ r.1 ≠ r.2.1)
+    (hconn : ∀ i j, i < n → j < n → Relation.ReflTransGen (fun x y => ∃ r ∈ rows, (r.1 = x ∧ r.2.1 = y) ∨ (r.1 = y ∧ r.2.1 = x)) i j)
+    (hker : ∀ r ∈ rows, dot (pressureRow n r.1 r.2.1 r.2.2) p = 0) (hsum : p.sum = 0) :
+    ∀ v ∈ p, v = 0 := by
+  have hrow : ∀ r ∈ rows, p.getD r.1 0 = p.getD r.2.1 0 := by
+    intro r hr
+    obtain ⟨ha, hb, hab⟩ := hrows r hr
+    have := hker r hr
+    rw [pressureRow_dot' n r.1 r.2.1 r.2.2 p hp ha hb hab] at this
+    rcases mul_eq_zero.mp this with h | h
+    · split_ifs at h <;> simp at h
+    · linarith
+  have hstep : ∀ x y, (∃ r ∈ rows, (r.1 = x ∧ r.2.1 = y) ∨ (r.1 = y ∧ r.2.1 = x)) → p.getD x 0 = p.getD y 0 := by
+    rintro x y ⟨r, hr, (⟨rfl, rfl⟩ | ⟨rfl, rfl⟩)⟩
+    · exact hrow r hr
+    · exact (hrow r hr).symm
+  have hrt : ∀ i j, Relation.ReflTransGen (fun x y => ∃ r ∈ rows, (r.1 = x ∧ r.2.1 = y) ∨ (r.1 = y ∧ r.2.1 = x)) i j →
+      p.getD i 0 = p.getD j 0 := by
+    intro i j h
+    induction h with
+    | refl => rfl
+    | tail _ hbc ih => exact ih.trans (hstep _ _ hbc)
+  have hall : ∀ i j, i < n → j < n → p.getD i 0 = p.getD j 0 :=
+    fun i j hi hj => hrt i j (hconn i j hi hj)
+  intro v hv
+  have hn : 0 < n := by rw [← hp]; exact List.length_pos_of_mem hv
+  have hc : ∀ w ∈ p, w = p.getD 0 0 := by
+    intro w hw
+    obtain ⟨i, hi, rfl⟩ := List.getElem_of_mem hw
+    have := hall i 0 (by omega) hn
+    simpa [List.getD_eq_getElem?_getD, List.getElem?_eq_getElem hi] using this
+  have hs := sum_of_const p _ hc
+  rw [hsum, hp] at hs
+  have hn' : (n : Rat) ≠ 0 := by exact_mod_cast (by omega : n ≠ 0)
+  have h0 : p.getD 0 0 = 0 := by
+    rcases mul_eq_zero.mp hs.symm with h | h
+    · exact absurd h hn'
+    · exact h
+  rw [hc v hv, h0]
+
+/-! ### re-insertion of zeros -/
+
+/-- number of kept (non-removed) indices below `k` -/
+def nrKept (removed : List Nat) (k : Nat) : Nat := (List.range k).countP fun i => !removed.contains i
+
+theorem nrKept_zero (removed : List Nat) : nrKept removed 0 = 0 := by simp [nrKept]
+
+theorem nrKept_succ (removed : List Nat) (k : Nat) :
+    nrKept removed (k + 1) = nrKept removed k + if removed.contains k then 0 else 1 := by
+  simp only [nrKept, List.range_succ, List.countP_append, List.countP_singleton]
+  cases removed.contains k <;> simp
+
+theorem nrKept_mono (removed : List Nat) {k k' : Nat} (h : k ≤ k') : nrKept removed k ≤ nrKept removed k' := by
+  induction h with
+  | refl => exact Nat.le_refl _
+  | step _ ih => rw [nrKept_succ]; omega
+
+theorem countP_removed (n : Nat) (removed : List Nat) (hr : ∀ i ∈ removed, i < n) (hnd : removed.Nodup) :
+    (List.range n).countP (fun i => removed.contains i) = removed.length := by
+  rw [List.countP_eq_length_filter]
+  apply List.Perm.length_eq
+  rw [List.perm_ext_iff_of_nodup (List.nodup_range.filter _) hnd]
+  intro a
+  simp only [List.mem_filter, List.mem_range, List.contains_iff_mem]
+  exact ⟨fun h => h.2, fun h => ⟨hr a h, h⟩⟩
+
+theorem nrKept_full (n : Nat) (removed : List Nat) (sol : List Rat) (hr : ∀ i ∈ removed, i < n) (hnd : removed.Nodup)
+    (hlen : sol.length + removed.length = n) : nrKept removed n = sol.length := by
+  have h1 := List.length_eq_countP_add_countP (fun i => removed.contains i) (l := List.range n)
+  rw [countP_removed n removed hr hnd, List.length_range] at h1
+  have h2 : nrKept removed n = (List.range n).countP (fun a => decide ¬(removed.contains a) = true) := by
+    unfold nrKept; congr 1; funext i; cases removed.contains i <;> simp
+  omega
+
+/-- the value the re-inserted vector has at position `i` -/
+def reinsVal (removed : List Nat) (sol : List Rat) (i : Nat) : Rat :=
+  if removed.contains i then 0 else sol.getD (nrKept removed i) 0
+
+theorem reinsert_foldl_invariant (removed : List Nat) (sol : List Rat) (k : Nat)
+    (hk : nrKept removed k ≤ sol.length) :
+    (List.range k).foldl (fun s i => if removed.contains i then s.take i ++ [0] ++ s.drop i else s) sol
+      = (List.range k).map (reinsVal removed sol) ++ sol.drop (nrKept removed k) := by
+  induction k with
+  | zero => simp [nrKept_zero]
+  | succ k ih =>
+    have hk' : nrKept removed k ≤ sol.length := le_trans (nrKept_mono removed (Nat.le_succ k)) hk
+    rw [List.range_succ, List.foldl_append, ih hk', List.map_append]
+    simp only [List.foldl_cons, List.foldl_nil, List.map_cons, List.map_nil]
+    have hA : ((List.range k).map (reinsVal removed sol)).length = k := by simp
+    rw [nrKept_succ] at hk ⊢
+    by_cases hc : removed.contains k = true
+    · simp only [hc, if_true, Nat.add_zero, reinsVal]
+      rw [List.take_left' hA, List.drop_left' hA]
+    · have hc' : removed.contains k = false := by simpa using hc
+      simp only [hc', Bool.false_eq_true, if_false, reinsVal] at hk ⊢
+      have hlt : nrKept removed k < sol.length := by omega
+      rw [List.drop_eq_getElem_cons hlt]
+      simp [List.getD_eq_getElem?_getD, List.getElem?_eq_getElem hlt]
+
+theorem reinsertZeros_eq (n : Nat) (removed : List Nat) (sol : List Rat)
+    (hr : ∀ i ∈ removed, i < n) (hnd : removed.Nodup) (hlen : sol.length + removed.length = n) :
+    reinsertZeros n removed sol = (List.range n).map (reinsVal removed sol) := by
+  have hfull := nrKept_full n removed sol hr hnd hlen
+  unfold reinsertZeros
+  rw [reinsert_foldl_invariant removed sol n (by omega), hfull]
+  simp
+
+theorem kept_take (removed : List Nat) (sol : List Rat) (k : Nat) (hk : nrKept removed k ≤ sol.length) :
+    ((List.range k).filter fun i => !removed.contains i).map (reinsVal removed sol) = sol.take (nrKept removed k) := by
+  induction k with
+  | zero => simp [nrKept_zero]
+  | succ k ih =>
+    have hk' : nrKept removed k ≤ sol.length := le_trans (nrKept_mono removed (Nat.le_succ k)) hk
+    rw [List.range_succ, List.filter_append, List.map_append, ih hk']
+    rw [nrKept_succ] at hk ⊢
+    by_cases hm : k ∈ removed
+    · simp [hm]
+    · have hc' : removed.contains k = false := by simpa using hm
+      simp only [hc', Bool.false_eq_true, if_false] at hk ⊢
+      have hlt : nrKept removed k < sol.length := by omega
+      have hf : List.filter (fun i => !removed.contains i) [k] = [k] := by simp [hm]
+      rw [hf, List.take_add_one]
+      simp [reinsVal, hm, List.getD_eq_getElem?_getD, List.getElem?_eq_getElem hlt]
+
+theorem reinsertZeros_kept' (n : Nat) (removed : List Nat) (sol : List Rat)
+    (hr : ∀ i ∈ removed, i < n) (hnd : removed.Nodup) (hlen : sol.length + removed.length = n) :
+    ((List.zip (List.range n) (reinsertZeros n removed sol)).filter fun p => !(removed.contains p.1)).map (·.2) = sol := by
+  have hfull := nrKept_full n removed sol hr hnd hlen
+  rw [reinsertZeros_eq n removed sol hr hnd hlen]
+  have hz : List.zip (List.range n) ((List.range n).map (reinsVal removed sol))
+      = (List.range n).map (fun i => (i, reinsVal removed sol i)) := by
+    rw [List.zip_map_right, List.zip_eq_zipWith, List.map_zipWith]
+    simp [List.zipWith_self]  
+  rw [hz, List.filter_map, List.map_map]
+  have := kept_take removed sol n (by omega)
+  rw [hfull, List.take_length] at this
+  exact this
+
+theorem reinsertZeros_removed' (n : Nat) (removed : List Nat) (sol : List Rat)
+    (hr : ∀ i ∈ removed, i < n) (hnd : removed.Nodup) (hlen : sol.length + removed.length = n) (i : Nat) (hi : i ∈ removed) :
+    (reinsertZeros n removed sol).getD i 1 = 0 := by
+  rw [reinsertZeros_eq n removed sol hr hnd hlen]
+  have hin : i < n := hr i hi
+  simp [List.getD_eq_getElem?_getD, hin, reinsVal, hi]
+
+theorem reinsertZeros_length' (n : Nat) (removed : List Nat) (sol : List Rat)
+    (hr : ∀ i ∈ removed, i < n) (hnd : removed.Nodup) (hlen : sol.length + removed.length = n) :
+    (reinsertZeros n removed sol).length = n := by
+  rw [reinsertZeros_eq n removed sol hr hnd hlen]; simp
 
 end Forsys
